@@ -1,10 +1,12 @@
 import MlsVerif.Proofs.GroupSecrecy
 import MlsVerif.Proofs.GroupClosure
 import MlsVerif.Proofs.GroupGhost
+import MlsVerif.Proofs.GroupInitChain
 /-
 A concrete history of the group model, evaluated by the kernel: create, add two members (with path), add a
 third (without path), an update-path commit, remove member 1 (with path; alternatively without), a further
-commit.  Used by the non-vacuity examples of `Props/C01Group.lean` and `Props/C02Group.lean`.
+commit; then two EXTERNAL commits: a new party joins, and a member that lost its state re-syncs (external commit
+with the Remove of its own old leaf).  Used by the non-vacuity examples of `Props/C01Group.lean` and `Props/C02Group.lean`.
 -/
 namespace MlsVerif.Group.Ex
 open MlsVerif.Tree MlsVerif.Group
@@ -14,7 +16,7 @@ def lf (i : Nat) : Leaf := ⟨i, 100 + i, 200 + i⟩
 def run (x : Except GErr (GroupWorld × Transcript)) : GroupWorld × Transcript :=
   match x with
   | .ok r => r
-  | .error _ => (⟨[], 0, []⟩, ⟨[], []⟩)
+  | .error _ => (⟨[], 0, []⟩, { pathSeals := [], welcome := [] })
 
 /-- epoch 0: member 0 alone -/
 def w0 : GroupWorld := GroupWorld.init (lf 0)
@@ -97,5 +99,49 @@ def m3 : Member := (party w5 3).getD ⟨0, ⟨0, []⟩, 0, .zero⟩
 
 /-- the epoch secrets of the main line -/
 def E (w : GroupWorld) : Sec := ((party w 0).map (·.secret)).getD .zero
+
+/-! ### external commits -/
+
+theorem reach5 : Reachable w5 := .commit (.commit reach3 ok4 c4) ok5 c5
+
+/-- epoch 5 → 6: party 4 joins by an EXTERNAL commit built from member 0's GroupInfo; no Remove.  `L0x`: the leaf
+node it inserts, `nlx`: the leaf node of its update path.  Members 0 and 2 process it; its leaf is the leftmost
+blank one, leaf 1 (where the removed member 1 was) -/
+def L0x : Leaf := ⟨4, 704, 204⟩
+def nlx : Leaf := ⟨4, 714, 204⟩
+def rx6 := run (w5.externalCommit 0 none L0x nlx 7000 .zero 17 [0, 2])
+def wx6 := rx6.1
+def trx6 := rx6.2
+theorem cx6 : w5.externalCommit 0 none L0x nlx 7000 .zero 17 [0, 2] = .ok (wx6, trx6) := by decide +kernel
+theorem okx6 : ExtOk w5 none L0x nlx 7000 := by decide +kernel
+
+/-- epoch 6 → 7: member 2 has lost its state and RE-SYNCS: an external commit (GroupInfo of member 0) with the
+Remove of its own old leaf 2, same identity and signature key; members 0 and 4 (leaves 0, 1) process it; the new
+leaf is again leaf 2 -/
+def L0y : Leaf := ⟨2, 802, 202⟩
+def nly : Leaf := ⟨2, 812, 202⟩
+def rx7 := run (wx6.externalCommit 0 (some 2) L0y nly 8000 .zero 18 [0, 1])
+def wx7 := rx7.1
+def trx7 := rx7.2
+theorem cx7 : wx6.externalCommit 0 (some 2) L0y nly 8000 .zero 18 [0, 1] = .ok (wx7, trx7) := by decide +kernel
+theorem okx7 : ExtOk wx6 (some 2) L0y nly 8000 := by decide +kernel
+
+theorem reachx6 : Reachable wx6 := .ext reach5 okx6 cx6
+theorem reachx7 : Reachable wx7 := .ext reachx6 okx7 cx7
+
+/-- … with all transcripts since the creation of the group -/
+theorem hist5 : History w5 [tr5, tr4, r3.2, r2.2, r1.2] :=
+  .commit (.commit (.commit (.commit (.commit (.init (lf 0)) ok1 c1) ok2 c2) ok3 c3) ok4 c4) ok5 c5
+theorem histx6 : History wx6 [trx6, tr5, tr4, r3.2, r2.2, r1.2] := .ext hist5 okx6 cx6
+
+/-- global freshness also for the two external commits -/
+theorem reachFx6 : ReachableF wx6 := .ext reachF5 okx6 (by decide +kernel) cx6
+
+/-- the external committer (party 4) as it is in epoch 6 -/
+def j4 : Member := (party wx6 4).getD ⟨0, ⟨0, []⟩, 0, .zero⟩
+/-- member 2's OLD state in epoch 6 — what it "lost"; the re-sync removes the leaf it belongs to -/
+def m2x : Member := (party wx6 2).getD ⟨0, ⟨0, []⟩, 0, .zero⟩
+/-- member 2 after the re-sync: the last party with identity 2 -/
+def m2y : Member := (wx7.members.reverse.find? (·.id == 2)).getD ⟨0, ⟨0, []⟩, 0, .zero⟩
 
 end MlsVerif.Group.Ex
